@@ -109,9 +109,9 @@ META = {
     },
     'C09': {
         'engine': 'E2 mast-lemmas',
-        'technique': 'Verus lemmas over real MAST with the advice stack universally quantified; Verus contracts on op_advpop/op_advpopw',
-        'design_ref': '§7 C09',
-        'level_text': 'Deductive proof for every advice content a host may supply: stdlib u64 div/mod/divmod either fail or produce the true quotient/remainder; advice pops push exactly the host-returned value.',
-        'level_note': 'Partial: clz/ctz/clo/cto, ilog2, ext2inv/ext2div and the Merkle instructions are not decided; honest-host completeness not decided.',
+        'technique': 'Verus lemmas over the MAST /repo\'s assembler emits, with the advice stack universally quantified (adv[k] is whatever the host pushed); hub bit-mask lemmas (generated bit-vector cases) and the pow2 macro step; Verus contracts on op_advpop/op_advpopw; bounded dishonest-host stand-in for the Merkle instructions',
+        'design_ref': '§7 C09, §11',
+        'level_text': 'Deductive proof for EVERY advice content a host may supply: u32clz, u32clo, u32ctz, u32cto and ilog2 complete exactly when the hint is the true count / logarithm (and return it), ext2inv completes exactly when the hinted pair is the inverse, stdlib u64 div/mod/divmod either fail or produce the true quotient/remainder; advice pops push exactly the host-returned value. Honest-host completeness follows from the same equivalences (ok <==> hint correct).',
+        'level_note': 'Merkle instructions (mtree_get / mtree_set / mtree_verify) are covered by the bounded dishonest-host stand-in only (the hasher chiplet and the Merkle store are not modelled). ext2div and the u64 clz/ctz/clo/cto procedures have no lemma. Two genuine defects in this area were found and repaired: F21 ilog2 accepted wrong hints, F22 op_mpverify ignored the depth.',
     },
 }
